@@ -29,6 +29,8 @@ type cell struct {
 	noWrite string // non-empty: reason why an in-place write is not representable
 	nilable bool   // parameter that may be nil (Coq type option Z)
 	guard   string // non-empty: the value must not be read (reason)
+	ty      string // loops mode: Coq type when it is not Z / bytes (list cells, sponge state)
+	pver    int    // loops mode, list cells: version of the slots (bumped by a pointer store l[i] = p)
 }
 
 // object is one struct (Point, Signature, PointProjective).  Either `whole`
@@ -60,6 +62,21 @@ type val struct {
 	nat    bool // kInt: a length (Coq nat); otherwise a Go int parameter (Coq Z)
 	lit    bool // kInt: an integer literal (either)
 	poison bool // result of a call that failed
+	// loops mode
+	el     *elemRef // kZ kFe: pointer to an element of a list cell
+	lb     int64    // kInt (nat / lit): known lower bound of the Go value
+	cv     int64    // kInt: known constant value (hasCv)
+	hasCv  bool
+	trunc  bool   // kInt nat: a - b that may be negative in Go (only usable as index / bound)
+	str    string // kString: value of a constant string
+	hasStr bool
+}
+
+// elemRef: the pointer stored in slot idx of the list behind cell c.
+type elemRef struct {
+	c    *cell
+	idx  string // Coq nat expression
+	pver int
 }
 
 type logEnt struct {
@@ -156,11 +173,12 @@ func (t *tr) read(c *cell) string {
 	if c.guard != "" {
 		t.fail("read of %s: %s", c.hint, c.guard)
 	}
+	t.noteRead(c)
 	if c.origin != oLocal && !c.written {
 		if (c.origin == oParam || c.origin == oPField) && c.pidx >= 0 {
 			t.paramRead[c.pidx] = true
 		}
-		if t.paramWritten != nil && !(c.origin == oParam && c == t.paramWritten) {
+		if t.paramWritten != nil && !(c.origin == oParam && c == t.paramWritten) && !isListTy(c.ty) && !isListTy(t.paramWritten.ty) {
 			t.fail("reads %s after the pointee of parameter %q was written in place: the two may alias and the value-level reading would be unsound",
 				c.hint, t.paramWritten.hint)
 		}
@@ -169,10 +187,18 @@ func (t *tr) read(c *cell) string {
 }
 
 func (t *tr) setCur(c *cell, cur string, zero int) {
-	oc, oz, ow := c.cur, c.zero, c.written
-	t.log = append(t.log, logEnt{undo: func() { c.cur, c.zero, c.written = oc, oz, ow }, c: c})
+	oc, oz, ow, og := c.cur, c.zero, c.written, c.guard
+	t.log = append(t.log, logEnt{undo: func() { c.cur, c.zero, c.written, c.guard = oc, oz, ow, og }, c: c})
 	c.cur, c.zero, c.written = cur, zero, true
+	if t.g.loops {
+		c.guard = "" // an overwritten value is defined again
+		t.noteWrite(c)
+	}
 }
+
+// isListTy: the Coq type of a list cell (slices of pointers: the callers'
+// slices are assumed pairwise disjoint, checked at translated call sites).
+func isListTy(ty string) bool { return strings.HasPrefix(ty, "list ") }
 
 // preWrite checks that an in-place write to c is representable and records it.
 func (t *tr) preWrite(c *cell) {
@@ -252,13 +278,18 @@ func (t *tr) field(o *object, name string, idx int) *val {
 		org = oPField
 	}
 	var v *val
-	if ft.k == kStruct {
+	if ft.k == kInt || (ft.k == kList && !intList(ft)) {
+		v = &val{t: ft, e: o.sd.proj(idx, o.whole)}
+	} else if ft.k == kStruct {
 		fo := t.newObject(ft.sd, o.sd.proj(idx, o.whole), org)
 		fo.owner, fo.hint, fo.pidx, fo.pw = o, o.hint+"_"+name, o.pidx, o.pw
 		v = &val{t: ft, o: fo}
 	} else {
 		c := t.newCell(o.sd.proj(idx, o.whole), o.hint+"_"+name, org)
 		c.owner, c.pidx = o, -1
+		if intList(ft) {
+			c.ty = "list Z"
+		}
 		if o.pw {
 			c.pidx = o.pidx
 		}
